@@ -269,6 +269,11 @@ Configure at least one of these settings:
 		}
 
 		// Add to resolve map.
+		// Different spellings of one domain would overwrite each other in map
+		// iteration order.
+		if _, ok := c.Resolve[cleaned]; ok {
+			return nil, fmt.Errorf("resolve domain %q is defined more than once", cleaned)
+		}
 		c.Resolve[cleaned] = resolveIP
 	}
 
